@@ -211,11 +211,15 @@ DoCommit2(p, cur, b, res, nrv, cs) ==
      /\ rcache' = [n \in Names |-> IF nrv[n] = b THEN b ELSE rcache[n]]
      /\ w' = Closed
      /\ UNCHANGED <<opt, delp, dedup, base, ckroot, pend>>
+\* a storage-like trie exists only below an account: its root reference lives in a leaf of a main trie, so a state
+\* with a non-empty storage-like trie has a non-empty main trie (whose root must be fetched first)
+Linked(cur) == (\E n \in Names \ Main : cur[n] # Empty) => (\E m \in Main : cur[m] # Empty)
 DoCommit(p, cur, touched, b) ==
-  \E res \in {[n \in Names |-> CommitTrie(n, rootv[n][p], cur[n], touched[n], b)]} :
-  \E nrv \in {[n \in Names |-> IF n \in Main \/ touched[n] # {} THEN (IF cur[n] # Empty THEN b ELSE NoVer)
-                                ELSE rootv[n][p]]} :
-     DoCommit2(p, cur, b, res, nrv, {n \in Names : nrv[n] = b})
+  /\ Linked(cur)
+  /\ \E res \in {[n \in Names |-> CommitTrie(n, rootv[n][p], cur[n], touched[n], b)]} :
+       \E nrv \in {[n \in Names |-> IF n \in Main \/ touched[n] # {} THEN (IF cur[n] # Empty THEN b ELSE NoVer)
+                                     ELSE rootv[n][p]]} :
+          DoCommit2(p, cur, b, res, nrv, {n \in Names : nrv[n] = b})
 
 \* first block at its height
 Commit == /\ w.par # NoVer /\ NextMinor(w.par.maj + 1) = 0
